@@ -324,7 +324,7 @@ func (p *Product) one(idx []int) (string, *ev.Fail) {
 func (p *Product) Exec(r *ev.Run) {
 	t0 := time.Now()
 	total := p.total()
-	var next, done int64
+	var next, done, nfail int64
 	nw := Workers()
 	outs := make([]map[string]struct{}, nw)
 	timedOut := int32(0)
@@ -343,7 +343,7 @@ func (p *Product) Exec(r *ev.Run) {
 					atomic.StoreInt32(&timedOut, 1)
 					return
 				}
-				if r.NumFails() >= 50 {
+				if atomic.LoadInt64(&nfail) >= 200 {
 					atomic.StoreInt32(&timedOut, 2)
 					return
 				}
@@ -351,7 +351,9 @@ func (p *Product) Exec(r *ev.Run) {
 				out, fl := p.one(idx)
 				atomic.AddInt64(&done, 1)
 				if fl != nil {
-					r.Report(fl)
+					if !r.Report(fl) {
+						atomic.AddInt64(&nfail, 1)
+					}
 					continue
 				}
 				if len(outs[wi]) < 100000 {
@@ -371,7 +373,7 @@ func (p *Product) Exec(r *ev.Run) {
 	if timedOut == 1 {
 		bound = fmt.Sprintf("deadline hit: %d of %d cases of product %v (in index order per worker)", done, total, p.Dims)
 	} else if timedOut == 2 {
-		bound = fmt.Sprintf("stopped after 50 failures: %d of %d cases", done, total)
+		bound = fmt.Sprintf("stopped after 200 failures: %d of %d cases", done, total)
 	}
 	if p.Describe != nil && total > 0 {
 		r.Sample(map[string]any{"scenario": p.Name, "case": p.Describe(p.decode(total / 2))})
